@@ -67,7 +67,7 @@ def run(prop, tier, seed, replay=None):
                      {"suite": "opt", "first_divergence": diffs[0], "n": len(diffs)})
     samples = []
     if prefixes:
-        some = S.load_lines(prefixes[-1][0] + ".ops.jsonl")
+        some = [o for o in S.load_lines(prefixes[-1][0] + ".ops.jsonl") if o.get("op") != "merit"]   # (long: every evaluation)
         samples = [{k: val for k, val in o.items() if k not in ("impl", "hist", "op")} for o in some[:4]]
     C.proof_coverage(v, thms, extra_tb=["direct oracles harness/w_opt.py (independent re-evaluation of the user function)",
                                         "floating point: theorems use order / field axioms only; NaN-free runs"])
